@@ -220,6 +220,11 @@ def check(ctx):
     rule_compress(ctx)
     rule_dropna(ctx)
     rule_fill(ctx)
+    # a tuple of dimensions is grouped by flatten(dims, insert=0) before the function is applied: flatten's order / splice / progress rules (C11)
+    from . import c11
+    from ..report import Renamed
+    ctx.rule('R8', 'flatten (grouping of a tuple of dimensions): contiguity guard, shared insertion point, C-order reshape', 2)
+    c11.rule_flatten(Renamed(ctx, {'*': 'R8'}))
     ctx.not_decided += ['which labels survive for a given NaN pattern (value level)', 'stability of argsort for equal labels']
     ctx.trusted += ['ndarray.argsort sorts ascending', 'ndarray.compress / take semantics']
     return EXPLANATION
